@@ -192,6 +192,86 @@ func ruleReceiveOrder(c *Ctx, r *Report) {
 		"(*internal/handshake.postHandshakeCompletion).complete": "unrelated func() bool? no",
 	}
 	delete(allowed, "(*internal/handshake.postHandshakeCompletion).complete")
+	// a wrapper closure of a replay marker, whatever it is called: a function literal whose
+	// parent asks a replay detector (Check) and hands the literal out as its commit function
+	isMarkerWrapper := func(fn *ssa.Function) bool {
+		par := fn.Parent()
+		if fn == nil || par == nil {
+			return false
+		}
+		asks := false
+		for _, b := range par.Blocks {
+			for _, in := range b.Instrs {
+				if cl, ok := in.(*ssa.Call); ok && cl.Call.IsInvoke() && cl.Call.Method.Name() == "Check" {
+					asks = true
+				}
+			}
+		}
+		if !asks {
+			return false
+		}
+		for _, b := range par.Blocks {
+			if ret, ok := b.Instrs[len(b.Instrs)-1].(*ssa.Return); ok && len(ret.Results) > 0 {
+				if mc, ok := unspill(ret.Results[0]).(*ssa.MakeClosure); ok && mc.Fn == ssa.Value(fn) {
+					return true
+				}
+			}
+		}
+		return false
+	}
+	// a function that marks numbers it takes from the connection's own record of what it has
+	// accepted (the imported receive position), not from a received header
+	marksOwnRecord := func(fn *ssa.Function) bool {
+		if fn == nil {
+			return false
+		}
+		n := 0
+		for _, b := range fn.Blocks {
+			for _, in := range b.Instrs {
+				cl, ok := in.(*ssa.Call)
+				if !ok || !cl.Call.IsInvoke() || cl.Call.Method.Name() != "Check" || len(cl.Call.Args) != 1 {
+					continue
+				}
+				n++
+				fromState := true
+				seen := map[ssa.Value]bool{}
+				var visit func(v ssa.Value, d int)
+				visit = func(v ssa.Value, d int) {
+					if v == nil || seen[v] || d > 10 {
+						return
+					}
+					seen[v] = true
+					switch x := stripConv(v).(type) {
+					case *ssa.Const:
+					case *ssa.Phi:
+						for _, e := range x.Edges {
+							visit(e, d+1)
+						}
+					case *ssa.BinOp:
+						visit(x.X, d+1)
+						visit(x.Y, d+1)
+					case *ssa.Call:
+						if calleeName(&x.Call) == "sync/atomic.LoadUint64" && len(x.Call.Args) == 1 {
+							if ia, ok := x.Call.Args[0].(*ssa.IndexAddr); ok && addrIntoField(ia, tCom, "RemoteSequenceNumber") {
+								return
+							}
+						}
+						fromState = false
+					default:
+						if _, f, _, ok := fieldLoad(stripConv(v)); ok && f == "replayProtectionWindow" {
+							return
+						}
+						fromState = false
+					}
+				}
+				visit(cl.Call.Args[0], 0)
+				if !fromState {
+					return false
+				}
+			}
+		}
+		return n > 0
+	}
 	var names []string
 	for n := range cons {
 		names = append(names, n)
@@ -202,6 +282,11 @@ func ruleReceiveOrder(c *Ctx, r *Report) {
 		if why, ok := allowed[n]; ok {
 			nCons++
 			r.OKTrivial("replay-commit-consumers", n, "", why)
+		} else if isMarkerWrapper(c.Fn(n)) {
+			nCons++
+			r.OKTrivial("replay-commit-consumers", n, "", "wrapper closure of a replay marker (runs when a consumer invokes it)")
+		} else if marksOwnRecord(c.Fn(n)) {
+			r.OKTrivial("replay-commit-consumers", n, "", "marks the numbers of the imported receive position, taken from the connection's own state")
 		} else if region[c.Fn(n)] {
 			// already reported above
 		} else {
@@ -397,7 +482,35 @@ func ruleReceiveOrder(c *Ctx, r *Report) {
 	}
 	// highest accepted sequence number is advanced only inside the accept closure
 	for _, s := range c.CallsToName("(*dtls.Conn).updateRemoteSequenceNumber") {
-		r.Check(short(s.Fn) == "(*dtls.Conn).protectedReplayMarker$1", "replay-check", "updateRemoteSequenceNumber<-"+short(s.Fn), c.ipos(s.Call), "advanced only when the replay window commits the record", "the highest accepted DTLS 1.3 sequence number is advanced outside the replay commit closure")
+		// ... of a replay marker: a function literal handed out by a function that asked a detector,
+		// in which the advance follows the invocation of the detector's accept function
+		okSite := false
+		if par := s.Fn.Parent(); par != nil {
+			asks := false
+			for _, b := range par.Blocks {
+				for _, in := range b.Instrs {
+					if cl, ok := in.(*ssa.Call); ok && cl.Call.IsInvoke() && cl.Call.Method.Name() == "Check" {
+						asks = true
+					}
+				}
+			}
+			var acceptCall ssa.Instruction
+			for _, b := range s.Fn.Blocks {
+				for _, in := range b.Instrs {
+					if cl, ok := in.(*ssa.Call); ok && !cl.Call.IsInvoke() && isFuncBoolType(cl.Call.Value.Type()) {
+						v := cl.Call.Value
+						if u, isU := v.(*ssa.UnOp); isU {
+							v = u.X
+						}
+						if _, isFV := v.(*ssa.FreeVar); isFV {
+							acceptCall = in
+						}
+					}
+				}
+			}
+			okSite = asks && acceptCall != nil && instrDominates(acceptCall, s.Call)
+		}
+		r.Check(okSite, "replay-check", "updateRemoteSequenceNumber<-"+short(s.Fn), c.ipos(s.Call), "advanced only when the replay window commits the record", "the highest accepted sequence number is advanced outside the commit closure of a replay marker")
 	}
 }
 
@@ -889,8 +1002,14 @@ func ruleCommitMarksWindow(c *Ctx, r *Report) {
 									}
 								}
 							}
-							p, isP := b.(*ssa.Parameter)
-							return isP && strings.Contains(strings.ToLower(p.Name()), "epoch")
+							if p, isP := b.(*ssa.Parameter); isP && strings.Contains(strings.ToLower(p.Name()), "epoch") {
+								return true
+							}
+							// a copy of the received header's epoch
+							if _, f, _, ok := fieldLoad(b); ok && f == "Epoch" {
+								return true
+							}
+							return false
 						}
 					}
 					return false
